@@ -39,19 +39,20 @@ Section Proto.
 Variable ip6 : str -> option str.
 Variable handler : str -> hres.
 Variable has_mw has_upload : bool.
+Variable up_call_fails : option str.
 Variable peer_ip : str.
 Variable peer_fp : option str.
 
 Notation route := (route handler).
 Notation handle_gemini := (handle_gemini ip6 handler has_mw peer_ip peer_fp).
-Notation start_upload := (start_upload has_upload).
-Notation process_titan_upload := (process_titan_upload has_mw has_upload peer_ip peer_fp).
-Notation handle_titan_url := (handle_titan_url ip6 has_mw has_upload peer_ip peer_fp).
-Notation data_received := (data_received ip6 handler has_mw has_upload peer_ip peer_fp).
-Notation feed := (feed ip6 handler has_mw has_upload peer_ip peer_fp).
-Notation task_done := (task_done handler has_upload).
-Notation step := (step ip6 handler has_mw has_upload peer_ip peer_fp).
-Notation run := (run ip6 handler has_mw has_upload peer_ip peer_fp).
+Notation start_upload := (start_upload has_upload up_call_fails).
+Notation process_titan_upload := (process_titan_upload has_mw has_upload up_call_fails peer_ip peer_fp).
+Notation handle_titan_url := (handle_titan_url ip6 has_mw has_upload up_call_fails peer_ip peer_fp).
+Notation data_received := (data_received ip6 handler has_mw has_upload up_call_fails peer_ip peer_fp).
+Notation feed := (feed ip6 handler has_mw has_upload up_call_fails peer_ip peer_fp).
+Notation task_done := (task_done handler has_upload up_call_fails).
+Notation step := (step ip6 handler has_mw has_upload up_call_fails peer_ip peer_fp).
+Notation run := (run ip6 handler has_mw has_upload up_call_fails peer_ip peer_fp).
 Notation Inv := (Inv has_upload).
 
 Definition gem_ok (line : str) : Prop := exists p, gemini_from_line ip6 line = Ok p.
@@ -74,6 +75,8 @@ Definition Good (act : action) : Prop :=
       ((exists line p, gemini_from_line ip6 line = Ok p /\ url = p_norm p) \/
        (exists line t, titan_from_line ip6 line = Ok t /\ url = titan_normalized t /\ has_upload = true))
   | AUpload id line content =>
+      has_upload = true /\ exists t, titan_from_line ip6 line = Ok t /\ N.of_nat (length content) = t_size t
+  | AUploadCall line content =>
       has_upload = true /\ exists t, titan_from_line ip6 line = Ok t /\ N.of_nat (length content) = t_size t
   | _ => True
   end.
@@ -137,9 +140,14 @@ Lemma R_start_upload s : J s -> await_titan s = false -> R (start_upload s).
 Proof.
   intros H A. unfold ServerProto.start_upload. destruct (titan s) as [t|] eqn:T; [|apply R_nil, H].
   destruct has_upload eqn:U; [|apply R_nil, H].
-  pose proof (J_spawn s TUpload H I) as HS. destruct (spawn s _) as [s' id]. cbn [fst] in HS.
-  split; [exact HS|]. cbn [snd]. constructor; [|constructor]. cbn. split; [exact U|].
-  exists t. split; [apply (j_titan s H t T)|apply (j_len s H t T A)].
+  assert (G : has_upload = true /\ exists t0, titan_from_line ip6 (t_line t) = Ok t0 /\
+                N.of_nat (length (content s)) = t_size t0).
+  { split; [exact U|]. exists t. split; [apply (j_titan s H t T)|apply (j_len s H t T A)]. }
+  destruct up_call_fails as [msg|].
+  - rewrite upload_failed_eq. pose proof (R_send s (err_resp 40 (lit "Upload error: " ++ msg)) H) as HR.
+    destruct (send_response s _). exact (R_cons _ (AUploadCall (t_line t) (content s)) G HR).
+  - pose proof (J_spawn s TUpload H I) as HS. destruct (spawn s _) as [s' id]. cbn [fst] in HS.
+    split; [exact HS|]. cbn [snd]. constructor; [|constructor]. exact G.
 Qed.
 
 Lemma R_ptu s : J s -> (forall t, titan s = Some t -> N.of_nat (length (content s)) = t_size t) ->
@@ -221,7 +229,7 @@ Lemma R_feed sl : forall s, Inv s -> J s -> R (feed s sl).
 Proof.
   induction sl as [|d r IH]; intros s I H; cbn [ServerProto.feed]; [apply R_nil, H|].
   pose proof (R_data_received s d I H) as [H1 G1].
-  pose proof (Inv_data_received ip6 handler has_mw has_upload peer_ip peer_fp s d I) as I1.
+  pose proof (Inv_data_received ip6 handler has_mw has_upload up_call_fails peer_ip peer_fp s d I) as I1.
   destruct (data_received s d) as [s1 a1]. cbn [fst snd] in *.
   destruct (IH s1 I1 H1) as [H2 G2]. destruct (feed s1 r) as [s2 a2]. cbn [fst snd] in *.
   split; [exact H2|]. cbn [snd]. apply Forall_app. split; assumption.
@@ -262,28 +270,31 @@ Proof.
   induction evs as [|e r IH]; intros s I H; [constructor|].
   cbn [ServerProto.run].
   pose proof (R_step s e I H) as [H1 G1].
-  pose proof (Inv_step ip6 handler has_mw has_upload peer_ip peer_fp s e I) as I1.
+  pose proof (Inv_step ip6 handler has_mw has_upload up_call_fails peer_ip peer_fp s e I) as I1.
   destruct (step s e) as [s' a]. cbn [fst snd] in *.
   unfold flat. cbn [flat_map fst]. apply Forall_app. split; [exact G1|]. apply IH; assumption.
 Qed.
 
 End Proto.
 
-Lemma invoked_only_valid : forall ip6 handler mw up ip fp evs,
-  let acts := Spec.ServerTrace.flat (ServerProto.run ip6 handler mw up ip fp ServerProto.init evs) in
+Lemma invoked_only_valid : forall ip6 handler mw up ucf ip fp evs,
+  let acts := Spec.ServerTrace.flat (ServerProto.run ip6 handler mw up ucf ip fp ServerProto.init evs) in
   (forall line, In (ServerProto.AHandler line) acts -> exists p, gemini_from_line ip6 line = Ok p) /\
   (forall id url i f, In (ServerProto.AMw id url i f) acts ->
       i = ip /\ f = fp /\
       ((exists line p, gemini_from_line ip6 line = Ok p /\ url = p_norm p) \/
        (exists line t, titan_from_line ip6 line = Ok t /\ url = titan_normalized t /\ up = true))) /\
   (forall id line content, In (ServerProto.AUpload id line content) acts ->
+      up = true /\ exists t, titan_from_line ip6 line = Ok t /\ N.of_nat (length content) = t_size t) /\
+  (forall line content, In (ServerProto.AUploadCall line content) acts ->
       up = true /\ exists t, titan_from_line ip6 line = Ok t /\ N.of_nat (length content) = t_size t).
 Proof.
-  intros ip6 handler mw up ip fp evs acts.
-  pose proof (run_good ip6 handler mw up ip fp evs init (Inv_init up) (J_init ip6 up)) as G.
+  intros ip6 handler mw up ucf ip fp evs acts.
+  pose proof (run_good ip6 handler mw up ucf ip fp evs init (Inv_init up) (J_init ip6 up)) as G.
   fold acts in G. rewrite Forall_forall in G.
-  split; [|split].
+  split; [|split; [|split]].
   - intros line Hin. exact (G _ Hin).
   - intros id url i f Hin. exact (G _ Hin).
   - intros id line content Hin. exact (G _ Hin).
+  - intros line content Hin. exact (G _ Hin).
 Qed.
